@@ -1,6 +1,8 @@
 import AkVerif.Gen.C16
 import AkVerif.Lemmas.Interleave
 import AkVerif.Lemmas.InterleaveFmt
+import AkVerif.Lemmas.InterleaveLive
+import AkVerif.Lemmas.InterleaveWorld
 /-!
 # C16 — request ids are unique per connection under concurrent use
 
@@ -171,6 +173,83 @@ theorem par_ids (p : List Instr) (hp : WellLocked p) (c : Nat) (reqs : List Nat)
     have := I.c0le
     omega
 
+/-- **no deadlock**: for every well-locked program and every schedule the drain finishes every
+thread, so `runPar` always returns numbers — the hypothesis of `par_ids` holds for every schedule.
+(`drainRun` steps per turn must cover a thread's calls: `reqs[t] * length ≤ 1000000`.) -/
+theorem par_total (p : List Instr) (hp : WellLocked p) (c : Nat) (reqs : List Nat)
+    (sched : List (Nat × Nat)) (hfuel : ∀ t, reqOf reqs t * p.length ≤ drainRun) :
+    ∃ nums c', runPar p c reqs sched = .ok (nums, c') := by
+  obtain ⟨x, hx⟩ := hp
+  unfold runPar
+  simp only [runRle_append]
+  have I : Inv p x c (reqOf reqs) (runRle p (initSt c (reqOf reqs)) sched) := by
+    rw [runRle_eq_runSched]; exact inv_run hx (inv_init p x c _ hx) _
+  generalize runRle p (initSt c (reqOf reqs)) sched = s at I
+  have hlen : x.E + 1 = p.length := hx.2.2.2.1
+  have R : Ready p x c (reqOf reqs) drainRun s := by
+    refine ⟨I, fun t => ?_⟩
+    have h1 := I.cnt t
+    have h2 : (s.th t).remaining ≤ reqOf reqs t := by omega
+    have h3 := Nat.mul_le_mul_right (x.E + 1) h2
+    have h4 := hfuel t
+    rw [← hlen] at h4
+    unfold work; omega
+  by_cases hk : reqs.length = 0
+  · simp [hk]
+  · have hold : ∀ u, s.lock = some u → u < reqs.length := by
+      intro u hu
+      have hsec := (I.lock u).mp hu
+      apply reqOf_lt
+      intro h0
+      have h1 := I.cnt u
+      have h2 : (s.th u).remaining = 0 := by omega
+      have := I.fin u h2
+      unfold inSec at hsec; omega
+    have hfin := drain_finishes hx drainRun reqs.length (Nat.pos_of_ne_zero hk) s R hold
+    have hall : (List.range reqs.length).all
+        (fun t => ((runRle p s (drainSched reqs.length)).th t).remaining == 0) = true := by
+      apply List.all_eq_true.mpr
+      intro t ht
+      have := hfin t (List.mem_range.mp ht)
+      unfold drainSched
+      simp [this]
+    rw [if_pos hall]
+    exact ⟨_, _, rfl⟩
+
+/-- one call by a thread that is alone takes the current number and advances the counter by one
+(total: it cannot fail) -/
+theorem genSeq_ok (p : List Instr) (hp : WellLocked p) (hlen : p.length ≤ drainRun) (c : Nat) :
+    genSeq p c = .ok (c, c + 1) := by
+  have hfuel : ∀ t, reqOf [1] t * p.length ≤ drainRun := by
+    intro t
+    cases t with
+    | zero => simp [reqOf]; exact hlen
+    | succ t => simp [reqOf]
+  obtain ⟨nums, c', h⟩ := par_total p hp c [1] [] hfuel
+  obtain ⟨h1, h2, _, h4, h5⟩ := par_ids p hp c [1] [] nums c' h
+  obtain ⟨l, hl0, hl1, _⟩ := h2 0 1 rfl
+  have hc' : c' = c + 1 := by simpa using h5
+  subst hc'
+  have hnums : nums = [l] := by
+    cases nums with
+    | nil => simp at h1
+    | cons a rest =>
+      cases rest with
+      | nil => simp at hl0; rw [hl0]
+      | cons b rest => simp at h1
+  subst hnums
+  cases l with
+  | nil => simp at hl1
+  | cons v rest =>
+    cases rest with
+    | cons w rest => simp at hl1
+    | nil =>
+      have hv := (h4 v).mp ⟨[v], by simp, by simp⟩
+      have : v = c := by omega
+      subst this
+      unfold genSeq
+      rw [h]
+
 /-- the generated format ends with the whole zero-padded number and everything in front of it has a
 fixed length -/
 theorem format_ok : formatOk Gen.C16.idFormat = true := by decide
@@ -227,11 +306,114 @@ theorem derived_shares (g : Cfg) (w w' : World) (c c' : Nat) (hs : Headers)
     simp
   · cases h
 
-/-! Non-vacuity: the generated program and format evaluated by the kernel. -/
+/-- the generated program is short enough for one drain turn -/
+theorem program_fuel : Gen.C16.reqIdProgram.length ≤ drainRun := by decide
+
+/-- **a request without an id of its own** on a connection whose ids are enabled: the implementation
+shared by the family advances its counter by exactly one and the request gets the header
+`Gen.C16.hdrName` with the rendering of the old counter value (so, by `format_injective`, successive
+requests through any connections of the family carry different ids). -/
+theorem request_auto (w : World) (c i n : Nat) (im : Impl) (hs : Headers)
+    (hc : w.conns[c]? = some i) (hi : w.impls[i]? = some im) (hn : im.ctr = some n)
+    (hno : hs.any (fun kv => Gen.C16.hdrTest.holds kv.1) = false) :
+    w.request Gen.C16.cfg c hs =
+      .ok ({ w with impls := setImpl w.impls i { im with ctr := some (n + 1) } },
+           setHeader hs Gen.C16.hdrName (render im.cp Gen.C16.idFormat n)) := by
+  unfold World.request
+  simp only [hc, hi, hn]
+  have : hs.any (fun kv => Gen.C16.cfg.test.holds kv.1) = false := hno
+  simp only [this]
+  have hg : genSeq Gen.C16.cfg.prog n = .ok (n, n + 1) := genSeq_ok _ program_ok program_fuel n
+  simp [hg]
+  rfl
+
+/-- every header name that `urllib` files under the key of the id header passes the generated test
+(so a generated id never competes with a header the test let through) -/
+theorem test_covers : TestCovers Gen.C16.cfg := by
+  intro k hk
+  have h1 := lower_of_capitalize_eq k Gen.C16.hdrName hk
+  have h2 : Gen.C16.hdrName.map lowerAscii = "x-request-id".toList := by decide
+  show Gen.C16.hdrTest.holds k = true
+  rw [header_test_ok]
+  simp [HdrTest.holds, h1, h2]
+
+/-- **the property on what is sent, for every schedule**: concurrent requests of any number of
+threads through connections of one family, any run-length encoded schedule.  The ids sent under the
+id header by the requests that brought none (`ids`, thread by thread) are pairwise distinct, each is
+the rendering of a number of `[n, n + #ids)`, the family's counter advances by exactly `#ids`
+(requests with their own id take nothing) and those requests keep their headers untouched. -/
+theorem par_world (w w' : World) (i n : Nat) (im : Impl) (threads : List (List ParReq))
+    (sched : List (Nat × Nat)) (out : List (List Headers))
+    (hi : w.impls[i]? = some im) (hn : im.ctr = some n)
+    (h : w.par Gen.C16.cfg i threads sched = .ok (w', out)) :
+    let ids := (threads.zip out).flatMap (fun to => sentAuto Gen.C16.cfg to.1 to.2)
+    ids.Nodup ∧
+    (∀ x, x ∈ ids → ∃ v, n ≤ v ∧ v < n + ids.length ∧ x = some (render im.cp Gen.C16.idFormat v)) ∧
+    w' = { w with impls := setImpl w.impls i { im with ctr := some (n + ids.length) } } ∧
+    out.length = threads.length ∧
+    (∀ to, to ∈ threads.zip out → keptOwn Gen.C16.cfg to.1 to.2) := by
+  unfold World.par at h
+  simp only [hi, hn] at h
+  split at h
+  · cases h
+  rename_i need _
+  split at h
+  · cases h
+  rename_i nums c' hrun
+  split at h
+  · cases h
+  rename_i out' hasm
+  simp only [Except.ok.injEq, Prod.mk.injEq] at h
+  obtain ⟨hw, hout⟩ := h
+  subst hout
+  obtain ⟨a1, a2, a3⟩ := assembleAll_sent Gen.C16.cfg test_covers im.cp threads nums out' hasm
+  obtain ⟨p1, p2, p3, p4, p5⟩ := par_ids Gen.C16.cfg.prog program_ok n _ sched nums c' hrun
+  intro ids
+  have hids : ids = nums.flatten.map (fun v => some (render im.cp Gen.C16.idFormat v)) := a2
+  -- every list of numbers is duplicate free, the lists are disjoint
+  have hlt : ∀ l, l ∈ nums → l.Nodup := by
+    intro l hl
+    obtain ⟨t, ht, htl⟩ := List.mem_iff_getElem.mp hl
+    have ht' : t < (need.map fun t => (t.filter id).length).length := by omega
+    obtain ⟨l', hl', _, hpw⟩ := p2 t _ (List.getElem?_eq_getElem ht')
+    rw [List.getElem?_eq_getElem ht, htl] at hl'
+    cases hl'
+    exact hpw.imp (fun h => Nat.ne_of_lt h)
+  have hnd : nums.flatten.Nodup := nodup_flatten_of nums hlt p3
+  have hlen : nums.flatten.length = (need.map fun t => (t.filter id).length).sum := by
+    rw [List.length_flatten]
+    congr 1
+    apply List.ext_getElem?
+    intro t
+    by_cases ht : t < nums.length
+    · have ht' : t < (need.map fun t => (t.filter id).length).length := by omega
+      obtain ⟨l', hl', hlen', _⟩ := p2 t _ (List.getElem?_eq_getElem ht')
+      rw [List.getElem?_map, hl', List.getElem?_eq_getElem ht']
+      simp [hlen']
+    · rw [List.getElem?_eq_none (by simp; omega), List.getElem?_eq_none (by omega)]
+  have hidlen : ids.length = c' - n := by rw [hids, List.length_map, hlen, p5]; omega
+  refine ⟨?_, ?_, ?_, a1, a3⟩
+  · rw [hids]
+    exact nodup_map_of_inj _
+      (fun a b hab => format_injective im.cp a b (Option.some.inj hab)) _ hnd
+  · intro x hx
+    rw [hids] at hx
+    obtain ⟨v, hv, rfl⟩ := List.mem_map.mp hx
+    obtain ⟨l, hl, hvl⟩ := List.mem_flatten.mp hv
+    have := (p4 v).mp ⟨l, hl, hvl⟩
+    exact ⟨v, this.1, by omega, rfl⟩
+  · rw [← hw]
+    have : c' = n + ids.length := by omega
+    rw [this]
+
+/-! Non-vacuity: the generated program and format evaluated by the kernel (outcomes that do not
+depend on the exact instruction count, so that a harmless rewrite of the source keeps them true). -/
 example : genSeq Gen.C16.reqIdProgram 41 = .ok (41, 42) := by decide +kernel
-example : runPar Gen.C16.reqIdProgram 7 [2, 1] [(0, 6), (1, 40), (0, 31), (1, 37)] = .ok ([[7, 9], [8]], 10) := by
+example : runPar Gen.C16.reqIdProgram 7 [2, 1] [(1, 1000000), (0, 1000000)] = .ok ([[8, 9], [7]], 10) := by
   decide +kernel
-example : render "ab12".toList Gen.C16.idFormat 123456 = "ab123456-0000-0000-0000-000000123456".toList := by
+example : (runPar Gen.C16.reqIdProgram 7 [2, 1] [(0, 1), (1, 1), (0, 2), (1, 1000000)]) ∈
+    [.ok ([[7, 8], [9]], 10), .ok ([[7, 9], [8]], 10), .ok ([[8, 9], [7]], 10)] := by decide +kernel
+example : render "ab12".toList Gen.C16.idFormat 123456 ≠ render "ab12".toList Gen.C16.idFormat 3456 := by
   decide +kernel
 example : HdrTest.holds Gen.C16.hdrTest "X-REQUEST-id".toList = true := by decide +kernel
 
